@@ -51,7 +51,16 @@ func init() {
 		"errors.As":  iErrorsAs,
 
 		"sort.Strings": iSortStrings,
-		"sort.Slice":   iSortSlice,
+		"sort.StringsAreSorted": func(m *machine, fr *frame, args []value) value {
+			x, _ := args[0].([]value)
+			for i := 1; i < len(x); i++ {
+				if m.strLess(x[i], x[i-1]) {
+					return false
+				}
+			}
+			return true
+		},
+		"sort.Slice": iSortSlice,
 
 		"regexp.MustCompile":                  iRegexpMustCompile,
 		"(*regexp.Regexp).FindStringSubmatch": iFindStringSubmatch,
